@@ -17,6 +17,19 @@ pub use crate::systematic_constants::{
     num_ldpc_symbols, num_lt_symbols, num_pi_symbols, systematic_index,
 };
 
+/// `ObjectTransmissionInformation::generate_encoding_parameters` (crate-private) under a public name.
+pub fn generate_encoding_parameters(
+    transfer_length: u64,
+    max_packet_size: u16,
+    decoder_memory_requirement: u64,
+) -> crate::ObjectTransmissionInformation {
+    crate::ObjectTransmissionInformation::generate_encoding_parameters(
+        transfer_length,
+        max_packet_size,
+        decoder_memory_requirement,
+    )
+}
+
 /// One symbol operation in plain types: (kind, dest, src, scalar); kind 0 = AddAssign,
 /// 1 = MulAssign, 2 = FMA. Reorder is returned separately.
 #[derive(Clone, Debug, PartialEq, Eq)]
